@@ -9,7 +9,13 @@ WORK = os.path.join(ROOT, "work")
 EVID = os.path.join(ROOT, "evidence")
 REPLAYS = os.path.join(ROOT, "replays")
 KNOWN = os.path.join(ROOT, "known_findings.txt")
-VH = os.path.join(HARNESS, "target", "debug", "vh")
+# Experiments only (lib/seedtest_wt.sh): build the harness against another checkout of the repository so that seeded
+# changes can be tried without touching /repo while other checks run.  Registered commands never set this.
+ALT_REPO = os.environ.get("VERIF_REPO_OVERRIDE")
+VH = os.path.join(HARNESS, "target-alt" if ALT_REPO else "target", "debug", "vh")
+if ALT_REPO:
+    EVID = os.path.join(WORK, "evidence-alt")
+    REPLAYS = os.path.join(WORK, "replays-alt")
 TLA_CP = "/opt/veriftools/tla/tla2tools.jar:/opt/veriftools/tla/CommunityModules-deps.jar"
 
 ENV_OFFLINE = {"CARGO_NET_OFFLINE": "true"}
@@ -69,9 +75,12 @@ def build_harness():
     # a lock so that concurrently started checks do not fight over cargo's build directory
     os.makedirs(WORK, exist_ok=True)
     import fcntl
-    with open(os.path.join(WORK, ".build.lock"), "w") as lk:
+    with open(os.path.join(WORK, ".build-alt.lock" if ALT_REPO else ".build.lock"), "w") as lk:
         fcntl.flock(lk, fcntl.LOCK_EX)
-        p = subprocess.run(["cargo", "build", "--offline", "--quiet"], cwd=HARNESS, env=env,
+        cmd = ["cargo", "build", "--offline", "--quiet"]
+        if ALT_REPO:
+            cmd += ["--config", f'paths=["{ALT_REPO}"]', "--target-dir", "target-alt"]
+        p = subprocess.run(cmd, cwd=HARNESS, env=env,
                            stdout=subprocess.PIPE, stderr=subprocess.STDOUT, text=True)
     if p.returncode != 0:
         # a tree that does not compile with the hooks is a tool error, not a violation
